@@ -284,10 +284,10 @@ impl Monitor for C03 {
         "cases = seeded random universes biased to unsatisfiable, constrains-heavy, hinted and layered families, run synchronously and under an async schedule; for every Unsolvable result Conflict::graph is walked: each requires/constrains/lock/exclusion/forbid edge is compared with the provider's data (requirement belongs to source, targets == candidates or the unresolved node, ...), reachability from the root is recomputed, and exactly the facts shown (+ at-most-one per forbid-connected group) are handed to a DPLL which must find them unsatisfiable. distinct = content hash; non-trivial = distinct Unsolvable case whose search learnt >= 1 clause (hook counter), i.e. whose report went through learnt_why expansion".into()
     }
     fn cases(&self, tier: Tier) -> u64 {
-        tier.pick(30_000, 1_500_000)
+        tier.pick(240_000, 4_800_000)
     }
     fn floor(&self, tier: Tier) -> u64 {
-        tier.pick(300, 20_000)
+        tier.pick(1_200, 12_000)
     }
     fn generate(&self, r: &mut Rng, _tier: Tier, _i: u64) -> SolverCase {
         let (name, cfg) = pick_family(r, FAMILIES);
